@@ -273,7 +273,7 @@ impl FsOcflStore {
             current.push(part);
             if current.is_dir() && is_object_root(&current)? {
                 return Err(RocflError::IllegalState(format!(
-                    "Cannot create object {} at {} because {} is the root of another object",
+                    "Object {} maps to {}, which is not possible because {} is the root of another object",
                     object_id,
                     object_root,
                     current.to_string_lossy()
@@ -556,6 +556,8 @@ impl OcflStore for FsOcflStore {
         };
 
         Self::ensure_within_storage_root(object_id, &object_root)?;
+        // A path inside another object, such as one of its version directories, is not an object
+        self.ensure_not_inside_object(object_id, &object_root)?;
 
         let storage_path = self.storage_root.join(&object_root);
         info!(
